@@ -57,7 +57,7 @@ CHECKS = {
          "On the composition Model.KeyedMutexConc (every method = one LoadOrStore(key, fresh) on the step-level map model, then one action on the returned mutex; sync.Mutex/RWMutex by contract), for every reachable state, any number of goroutines, menus that never ClearKey the key under consideration: C09.conc_agree (all goroutines that obtained a mutex for k have the same one, the map's abstract value), conc_agree_distinct, conc_mutex (at most one writer-holder per key, no reader with a writer), conc_unlock_same (UnlockKey/RUnlockKey release exactly what LockKey/RLockKey acquired; no unlock of an unlocked mutex), conc_try, conc_independent, conc_map_result, conc_clear_proviso_needed. History level on the real map: C09.map_agree/map_one_mutex/map_first_stores. Over the atomic map (Model.KeyedMutex): C09.agree/mutex/rw/independent/try/... Tie: step-level traces of the real KeyedMutex/KeyedRWMutex under the controlled scheduler (all schedules with <= 2 preemptions of a catalogue incl. first-use races and cleared keys, random programs) replayed label for label in Model.KeyedMutexConc by the judge C09conc (whose steps are proved to be steps of the model: doStep_sound etc.), the same executions and native parallel runs (also under -race) judged for the keyed-lock specification.",
          '§8 C09, Appendix F.7'),
  "C17": ("invariant proofs (Lean 4) over a transition system of sync.Once's algorithm + the OnceN wrappers: exactly once, same results, return after completion, for all schedules and any number of callers; event-trace acceptance",
-         "C17.exactly_once/returned_implies_invoked_and_finished/same_results/after_completion(_ret)/fend_records/result_stable/spec_holds. Tie: native executions with gated functions, event traces (call/fstart/fend/ret) accepted by the Lean system and checked against the history predicate; race-detector runs as observation.",
+         "C17.exactly_once/returned_implies_invoked_and_finished/same_results/after_completion(_ret)/fend_records/result_stable/spec_holds. With functions that may PANIC (Model.OncePanic: the deferred done.Store(1) and Unlock run while the panic unwinds, the panicking caller never returns): panic_exactly_once(_state), panic_one_ending, panic_results_zero (after a panic every later Do returns zero values, the fields were never assigned), panic_after_completion, panic_panicker_never_returns, panic_mutex_released, panic_no_deadlock_of_waiters, panic_waiters_can_return (from every reachable state after the ending, every other caller has a schedule on which it returns the shared results), panic_refines_glue / panic_spec_holds_glue (the judge's translation fpanic -> fend zeros is a refinement into Model.Once). Tie: native executions with gated functions, event traces (call/fstart/fend/ret) accepted by the Lean system and checked against the history predicate; race-detector runs as observation.",
          "§8 C17"),
  "C18": ("proofs (Lean 4): generic atomic-object linearizability theorem; AtomicValue wrapper = register; Pool wrapper over the sync.Pool contract: no double hand-out, source of every Get, race freedom over regenerated plain-access facts",
          "C18.AtomicObj.linearizable/lin_in_interval, register, load_zero_before_store, load_latest, swap_returns_previous, cas_iff_equal, pool_no_double, pool_get_source, pool_get_result, pool_linearizable, pool_race_free, gen_pool_no_plain_stores, gen_pool_race_free (plain stores to receiver state in Get/Put regenerated from pool.go every run). Tie: native histories judged for linearizability by the Lean driver; the same scenarios under the Go race detector (a report is a violation).",
